@@ -350,7 +350,12 @@ def A12_extend_bookkeeping(repo, clause):
                 and isinstance(g.target, ast.Tuple) and len(g.target.elts) == 2:
             i, a = g.target.elts[0].id, g.target.elts[1].id
             key_ok = isinstance(dc.key, ast.Name) and dc.key.id == a
-            val_ok = nf(dc.value) == nf(ast.parse("%s + %s" % (i, offname), mode="eval").body) and not g.ifs
+            start = kwarg(g.iter, "start") or (g.iter.args[1] if len(g.iter.args) > 1 else None)
+            if start is None:
+                val_ok = nf(dc.value) == nf(ast.parse("%s + %s" % (i, offname), mode="eval").body) and not g.ifs
+            else:
+                # enumerate(sel, start=offset): the counter itself is the row
+                val_ok = isinstance(start, ast.Name) and start.id == offname and isinstance(dc.value, ast.Name) and dc.value.id == i and not g.ifs
             okmap = (m, key_ok and val_ok)
     if okmap is None:
         obs.append(Ob("A12", clause, fn, fn.node, False, "index map of appended atoms (enumerate over the selector + offset) not found",
@@ -361,13 +366,25 @@ def A12_extend_bookkeeping(repo, clause):
                       slot="index-map"))
         mname = m.targets[0].id
         upd = [c for c in method_calls_on(fn, mname, "update")]
-        ok_u = len(upd) == 1 and upd[0].args and isinstance(upd[0].args[0], ast.Name) and upd[0].args[0].id == "structure_index_map" \
-            and cfg.dominates(m, fn.stmt_of(upd[0]))
-        obs.append(Ob("A12", clause, fn, upd[0] if upd else m, ok_u, "the caller's identity map overlays the appended-row map (update after construction)",
-                      slot="identity-overlay"))
+        # the other spelling of the overlay: merged = {**appended_map, **structure_index_map} (later entries win, as with update)
+        merged = [n for n in fn.own_nodes() if isinstance(n, ast.Assign) and len(n.targets) == 1 and isinstance(n.targets[0], ast.Name) and isinstance(n.value, ast.Dict)
+                  and len(n.value.keys) == 2 and all(k_ is None for k_ in n.value.keys)
+                  and isinstance(n.value.values[0], ast.Name) and n.value.values[0].id == mname]
+        if not upd and len(merged) == 1:
+            mg = merged[0]
+            ok_u = isinstance(mg.value.values[1], ast.Name) and mg.value.values[1].id == "structure_index_map" and cfg.dominates(m, mg)
+            obs.append(Ob("A12", clause, fn, mg, ok_u, "the caller's identity map overlays the appended-row map ({**appended, **identity}: the later entries win)",
+                          slot="identity-overlay", positive=not ok_u))
+            overlay_stmt, mname = mg, mg.targets[0].id
+        else:
+            ok_u = len(upd) == 1 and upd[0].args and isinstance(upd[0].args[0], ast.Name) and upd[0].args[0].id == "structure_index_map" \
+                and cfg.dominates(m, fn.stmt_of(upd[0]))
+            obs.append(Ob("A12", clause, fn, upd[0] if upd else m, ok_u, "the caller's identity map overlays the appended-row map (update after construction)",
+                          slot="identity-overlay"))
+            overlay_stmt = fn.stmt_of(upd[0]) if upd else None
         # converter built from that map after the overlay
         conv = [n for n in fn.own_nodes() if isinstance(n, ast.Assign) and isinstance(n.value, ast.Call) and call_name(n.value) == "vectorize"]
-        ok_c = len(conv) == 1 and ast.unparse(conv[0].value.args[0]) == "%s.get" % mname and upd and cfg.dominates(fn.stmt_of(upd[0]), conv[0])
+        ok_c = len(conv) == 1 and ast.unparse(conv[0].value.args[0]) == "%s.get" % mname and overlay_stmt is not None and cfg.dominates(overlay_stmt, conv[0])
         obs.append(Ob("A12", clause, fn, conv[0] if conv else m, bool(ok_c), "term atom indices are converted through that merged map", slot="converter"))
         if conv:
             cname = conv[0].targets[0].id
@@ -426,6 +443,20 @@ def A12_extend_bookkeeping(repo, clause):
             attr = n_attr = s_.targets[0].value.attr
             extra = []
             for t, pol, k in norm_guards(fn, s_, stop=loops[0]):
+                if isinstance(t, ast.Name):
+                    # a flag computed once before the loop (`has_fields = self.extra_atom_fields.size > 0`): judge the test it stands for -
+                    # unless the attribute it reads is re-bound between the flag and the loop (then the flag is STALE: the padded columns are not seen)
+                    from verif_sa.dataflow import _attr_rebound_between
+                    uv_ = fn.rd.unique_value(t)
+                    if uv_ is not None and _attr_rebound_between(fn, uv_[0], fn.stmt_of(t), uv_[1]):
+                        read_attrs = sorted({x.attr for x in ast.walk(uv_[1]) if is_self_attr(x)})
+                        obs.append(Ob("A12", clause, fn, uv_[0], False,
+                                      "the flag `%s` is computed from self.%s BEFORE a statement that re-binds that attribute (the padding with the other structure's columns): "
+                                      "the identity-map loop tests a stale value and skips the adoption of the other atom's extra fields" % (t.id, "/".join(read_attrs)),
+                                      slot="identity-flag-stale", positive=True))
+                    t_e = expand(fn, t)
+                    if t_e is not t and not isinstance(t_e, ast.Name):
+                        t, pol = strip_not(t_e, pol)
                 txt = ast.unparse(t)
                 size_test = ("extra_atom_fields" in txt and (".size" in txt or "len(" in txt or ".shape" in txt)) and attr == "extra_atom_fields"
                 if size_test:
@@ -1209,8 +1240,13 @@ def A18_cli_wiring(repo, clause):
         out = set()
         for n in f.own_nodes():
             e = eq_const(n) if isinstance(n, ast.Compare) else None
-            if e is not None and e[2] and isinstance(e[0], ast.Name) and e[0].id in f.params and isinstance(e[1], str):
-                out.add(e[1])
+            if e is not None and isinstance(e[0], ast.Name) and e[0].id in f.params and isinstance(e[1], str):
+                out.add(e[1])      # `== "cif"` selects the handler, `!= "cif"` guards the refusal: either way the type is known to the dispatcher
+            if isinstance(n, ast.Compare) and len(n.ops) == 1 and isinstance(n.ops[0], (ast.In, ast.NotIn)) and isinstance(n.left, ast.Name) and n.left.id in f.params \
+                    and isinstance(n.comparators[0], (ast.Tuple, ast.List, ast.Set)):
+                out.update(x.value for x in n.comparators[0].elts if isinstance(x, ast.Constant) and isinstance(x.value, str))
+            if isinstance(n, ast.Dict) and n.keys and all(isinstance(k_, ast.Constant) and isinstance(k_.value, str) for k_ in n.keys):
+                out.update(k_.value for k_ in n.keys)   # table-driven dispatch
         return out
     for which, f, var in (("input", load, "inputpath"), ("output", save, "outputpath")):
         lits = None
@@ -1231,7 +1267,7 @@ def A18_cli_wiring(repo, clause):
                                   if other_suffix else " (not the plain .suffix)")),
                               slot="suffix-attr:%s" % which, positive=other_suffix, undecided=not is_suffix and not other_suffix))
         obs.append(Ob("A18", clause, fn, fn.node, ok, "%s suffixes %s are all dispatched by Atoms.%s (%s)" % (which, lits, f.name, sorted(dt)),
-                      construct="%s.suffix in %s" % (var, lits), slot="suffix:%s" % which, positive=lits is not None and bool(dt)))
+                      construct="%s.suffix in %s" % (var, lits), slot="suffix:%s" % which, positive=lits is not None and bool(dt), depends=(f,)))
     return obs
 
 
